@@ -1,6 +1,7 @@
 package main
 
 import (
+	"go/token"
 	"fmt"
 	"go/types"
 	"sort"
@@ -35,6 +36,8 @@ var auxRequired = map[string][]string{
 }
 
 func runC09(c *Ctx, r *Run) {
+	r.Rule("ENC-2", "the writers that bind session and party identity (ID, IDSlice, RID, Config, ...) are total on their type")
+	r.Rule("START-S3", "every start closure hands the caller's session identifier itself (its bytes) to round.NewSession")
 	r.Rule("DEP-5", "tag completeness: every field of round.Info (bar the two tabled exceptions), the session id and every auxiliary item are written, error-checked, into the hash whose Sum() becomes the SSID")
 	r.Rule("START-S2", "key-material binding: CMP refresh/sign/presign/online pass config, message and presignature id to NewSession")
 	r.Rule("CONST-1", "protocol-id constants are distinct across protocol packages")
@@ -396,10 +399,84 @@ func runC09(c *Ctx, r *Run) {
 	}
 	r.Note("OB-S6: %d verifier-side and %d prover-side context uses", nV, nP)
 
+	checkWritersTotal(c, r, "ENC-2", writerImplementers(c))
+	checkSessionIDForwarded(c, r, "START-S3")
+	r.Require("START-S3", 8)
+	r.Require("ENC-2", 15)
 	r.Require("DEP-5", 8)
 	r.Require("START-S2", 8)
 	r.Require("CONST-1", 9)
 	r.Require("OB-S4", 16)
 	r.Require("ENC-1", 6)
 	r.Require("OB-S6", 40)
+}
+
+// contentFrom: v carries the bytes of src: it is src (or a slice of it), or a buffer filled by copy(v, src) /
+// append(v, src...) on every path before `at`. A buffer that only has src's LENGTH does not count.
+func contentFrom(v, src ssa.Value, at ssa.Instruction) bool {
+	v = stripConv(v)
+	if v == src {
+		return true
+	}
+	switch x := v.(type) {
+	case *ssa.Slice:
+		return contentFrom(x.X, src, at)
+	case *ssa.UnOp:
+		if x.Op == token.MUL {
+			if a, ok := x.X.(*ssa.Alloc); ok {
+				if sv := singleStore(a); sv != nil {
+					return contentFrom(sv, src, at)
+				}
+			}
+		}
+	case *ssa.Call:
+		if bi, ok := x.Call.Value.(*ssa.Builtin); ok && bi.Name() == "append" {
+			for _, a := range x.Call.Args {
+				if contentFrom(a, src, at) {
+					return true
+				}
+			}
+		}
+	case *ssa.MakeSlice, *ssa.Alloc:
+		// copy(v[..], src) that dominates `at`
+		found := false
+		walkUses(v, 3, func(in ssa.Instruction) {
+			call, ok := in.(*ssa.Call)
+			if !ok {
+				return
+			}
+			if bi, ok := call.Call.Value.(*ssa.Builtin); ok && bi.Name() == "copy" && len(call.Call.Args) == 2 {
+				if contentFrom(call.Call.Args[1], src, call) && instrDominates(call, at) {
+					found = true
+				}
+			}
+		})
+		return found
+	}
+	return false
+}
+
+// checkSessionIDForwarded: the session identifier the caller supplies is the one that reaches round.NewSession.
+func checkSessionIDForwarded(c *Ctx, r *Run, rule string) {
+	ns := c.LookupFunc("internal/round", "NewSession")
+	if ns == nil {
+		r.Unresolved(rule, "internal/round.NewSession")
+		return
+	}
+	for _, sf := range startFuncs(c) {
+		if sf.Parent() == nil || len(sf.Params) != 1 {
+			continue // the closure func(sessionID []byte) (round.Session, error)
+		}
+		sid := ssa.Value(sf.Params[0])
+		allInstrs(sf, func(in ssa.Instruction) {
+			call, ok := in.(*ssa.Call)
+			if !ok || call.Call.StaticCallee() != ns || len(call.Call.Args) < 2 {
+				return
+			}
+			r.Analysed(c.FuncName(sf))
+			ok2 := contentFrom(call.Call.Args[1], sid, call)
+			r.Check(rule, c.FuncName(sf)+"|session id forwarded", c.Pos(call.Pos()), ok2, "the caller's session identifier (its bytes) is what NewSession hashes into the tag",
+				"NewSession receives "+path(call.Call.Args[1])+", which does not carry the bytes of the closure's sessionID parameter (at most its length): sessions started with different identifiers share tag, transcript and derived nonces")
+		})
+	}
 }
